@@ -368,6 +368,10 @@ pub const ENTRIES: &[Entry] = &[
     e!("evil_sources", ALL, Args::XY),
     e!("dijkstra_evil_sources", &[WU], Args::XY),
     e!("prng", &[L], Args::None),
+    // two caller threads use one borrowed digraph at the same time (every digraph type is `Sync`): queries,
+    // traversals, clones and - for the list and the map - the hand-threaded operations, whose workers then
+    // run beside another caller's workers; t = simulated CPU count
+    e!("shared_callers", ALL, Args::X, threaded),
     // generated call sequences: (x, y, cb, t) only encode the sequence's seed
     e!("seq", UNW, Args::XY),
     // generated digraph structures (DAGs, several strong components, long chains, stars, layers, unreachable
@@ -399,6 +403,11 @@ pub fn catalogue() -> Vec<Prog> {
         for &repr in en.reprs {
             let shapes: Vec<Shape> = if en.args == Args::Gen || matches!(en.name, "empty_huge" | "distance_matrix_huge" | "prng") {
                 vec![Shape::Trivial]
+            } else if en.name == "shared_callers" {
+                // two callers double the cost under Miri: two shapes. Contiguous ones only: the traversals answer
+                // a non-contiguous map with their documented panic, and a panic must not unwind a spawned task
+                // of a scheduled execution (see the ids below)
+                vec![Shape::Dense5, Shape::TwoScc6]
             } else {
                 // non-contiguous shapes exist only as AdjacencyMap values: for the map itself, and as the
                 // *source* of a conversion out of a map
@@ -410,6 +419,9 @@ pub fn catalogue() -> Vec<Prog> {
                     Args::None => &[Id::In0],
                     // Gen: x selects the parameter class (0 -> order 0, ... see gen_order)
                     Args::Gen => &[Id::In0, Id::InLast, Id::Order, Id::OrderP1],
+                    // in-range ids only: a panic that unwinds a *spawned* task inside a shuttle execution (even when
+                    // caught there) corrupted the native heap in a trial (malloc(): unaligned tcache chunk)
+                    _ if en.name == "shared_callers" => &[Id::In0, Id::InLast],
                     _ => &IDS,
                 };
                 for &x in xs {
@@ -422,7 +434,15 @@ pub fn catalogue() -> Vec<Prog> {
                     for y in ys {
                         let cbs: &[u8] = if en.cb && x.in_range() && y.in_range() { &[0, 1, 2] } else { &[0] };
                         for &cb in cbs {
-                            let ts: &[u8] = if en.threaded { &[1, 2, 3, 4] } else { &[0] };
+                            let ts: &[u8] = if en.name == "shared_callers" {
+                                // one CPU count per shape (these programs also run under every Miri seed of
+                                // the thread dimension)
+                                if shape == Shape::Dense5 { &[2] } else { &[3] }
+                            } else if en.threaded {
+                                &[1, 2, 3, 4]
+                            } else {
+                                &[0]
+                            };
                             for &t in ts {
                                 out.push(Prog { entry: en.name, repr, shape, x, y, cb, t });
                             }
@@ -692,6 +712,11 @@ fn advance_steps(y: Id) -> usize {
         Id::Far => 5,
         Id::Max => usize::MAX,
     }
+}
+
+/// Fix the argument type of a caller's work closure from a witness value.
+fn typed_work<G, F: Fn(&G, usize) -> usize>(_witness: &G, f: F) -> F {
+    f
 }
 
 fn set_cpus(t: u8) {
@@ -1197,6 +1222,57 @@ pub fn body(p: &Prog) -> u64 {
             }
             each_evil!(Dijkstra) + each_evil!(DijkstraDist) + each_evil!(DijkstraPred)
         }),
+        "shared_callers" => {
+            // The second caller is a thread from the seam (a scheduled task under the shuttle engine, a real
+            // thread under Miri), started with `spawn` and joined through its handle. Not `scope`: shuttle
+            // 0.9.3 wakes the task that opened a scope when the scope's last thread ends *wherever that task is
+            // blocked*, so a first caller waiting inside graaf's own `scope` for its workers was released early
+            // (use after free of graaf's buffers, SIGSEGV in a trial): a defect of the simulator's scope, not
+            // of graaf.
+            macro_rules! two_callers {
+                ($shared:expr, $work:expr) => {{
+                    let shared = std::sync::Arc::new($shared);
+                    let work = $work;
+                    let s2 = std::sync::Arc::clone(&shared);
+                    #[cfg(graaf_verif)]
+                    let h = graaf::verif_seam::spawn(move || work(&*s2, 1));
+                    #[cfg(not(graaf_verif))]
+                    let h = std::thread::spawn(move || work(&*s2, 1));
+                    let a: usize = work(&*shared, 0);
+                    a + h.join().unwrap_or(0)
+                }};
+            }
+            let common = on!(p, d, [L, M, X, E, WI, WU], |g| {
+                two_callers!(g.clone(), typed_work(&g, move |g, k: usize| -> usize {
+                    let mut acc = g.order() + g.size() + g.arcs().count() + g.vertices().count();
+                    acc += g.degree_sequence().sum::<usize>() + g.sinks().count() + g.sources().count();
+                    acc += g.converse().size() + usize::from(g.clone() == *g);
+                    acc += Bfs::new(g, [x].into_iter()).count() + DfsDist::new(g, [x].into_iter()).count();
+                    acc += g.out_neighbors(x).count() + g.in_neighbors(x).count() + g.indegree(x) + g.outdegree(x);
+                    acc + usize::from(g.has_arc(x, k)) + usize::from(g.is_sink(x))
+                }))
+            });
+            let extra = match p.repr {
+                L => two_callers!(mk::L(d), move |g: &AdjacencyList, k: usize| -> usize {
+                    let h = g.complement();
+                    let u = g.union(&h);
+                    AdjacencyList::complete(g.order().max(1) + k).size()
+                        + usize::from(u.is_semicomplete())
+                        + usize::from(g.is_semicomplete())
+                        + h.size()
+                        + u.size()
+                }) as u64,
+                M => two_callers!(mk::M(d), move |g: &AdjacencyMap, k: usize| -> usize {
+                    let h = g.converse();
+                    g.union(&h).size()
+                        + AdjacencyMap::random_tournament(g.order().max(1) + k, 7).size()
+                        + AdjacencyMap::erdos_renyi(g.order().max(1) + k, 0.7, 7).size()
+                        + g.out_neighbors(x).count()
+                }) as u64,
+                _ => 0,
+            };
+            common + extra
+        }
         "std_traits" => on!(p, d, [L, M, X, E, WI, WU], |g| {
             use std::fmt::Write as _;
             use std::hash::{Hash, Hasher};
